@@ -1722,6 +1722,19 @@ def _patch_exec():
                     tv = self.truth(r, st2)
                     k(sv_bool(Not(tv) if neg else tv), st2)
                 return self.ev_contract_call(FUNCS[CLASSES[c.hint].methods["__contains__"]], node.comparators[0], call, st, ctx, got_in)
+        if (type(node) is ast.Subscript and isinstance(node.ctx, ast.Load) and not isinstance(node.slice, ast.Slice) and self.is_pure(node.value, st)
+                and self.is_pure(node.slice, st)):
+            # `obj[key]` where obj's class puts __getitem__ under contract: a call of that method
+            try:
+                c = self.pev(node.value, st, Mode(False, None, None))
+            except OutOfSubset:
+                c = None
+            if (c is not None and c.kind == "v" and c.hint in CLASSES and "__getitem__" in CLASSES[c.hint].methods
+                    and not self.is_setlike(c) and not self.is_listlike(c) and not is_dict_hint(c.hint)):
+                call = ast.Call(func=ast.Attribute(value=node.value, attr="__getitem__", ctx=ast.Load()), args=[node.slice], keywords=[])
+                ast.copy_location(call, node)
+                ast.fix_missing_locations(call)
+                return self.ev_contract_call(FUNCS[CLASSES[c.hint].methods["__getitem__"]], node.value, call, st, ctx, k)
         if self.is_pure(node, st):
             checks = []
             sv = self.pev(node, st, Mode(False, None, checks))
